@@ -120,6 +120,8 @@ type reqInfo struct {
 }
 
 // Check applies the three clauses.
+var refusedPaths = []string{"/v1" + strings.Repeat("/a", 40), "/v1/a b/c", "/v1/{x}", "/" + strings.Repeat("v1:", 40), "/v1/\x00"}
+
 func Check(c Case) ([]evid.Violation, []reqInfo) {
 	var vs []evid.Violation
 	infos := make([]reqInfo, len(c.Reqs))
@@ -158,6 +160,11 @@ func Check(c Case) ([]evid.Violation, []reqInfo) {
 			}
 		}
 		infos[i].w = len(W)
+		if i%3 == 1 {
+			// earlier traffic the mux had to refuse (a path beyond the token limit, one with a character outside
+			// the documented set) says nothing about the next request
+			a.Do("GET", refusedPaths[i%len(refusedPaths)], "")
+		}
 		oa := a.DoTarget(r.Verb, r.Path, r.Raw, "")
 		ob := b.DoTarget(r.Verb, r.Path, r.Raw, "")
 		infos[i].dispatched = oa.Method != ""
